@@ -52,6 +52,13 @@ MISC = {
     "excdef.py": "class ExcclsError(Exception):\n    def detail(self) -> int:\n        ...\n\n\ndef exccls_same() -> ExcclsError:\n    ...\n",
     "excuse.py": "from clomisc.excdef import ExcclsError\n\n\ndef exccls_other(e: ExcclsError) -> int:\n    ...\n",
     "rawbuiltins.py": "def rawbuiltin_use(b: bytes, o: object) -> complex:\n    ...\n",
+    # names of the package that no stub declares: a NewType, a class defined under an `if`, a private class in a public signature
+    "ntdef.py": "from typing import NewType\n\nNewtypeId = NewType(\"NewtypeId\", int)\n\n\ndef newtype_same(i: NewtypeId) -> int:\n    ...\n",
+    "ntuse.py": "from clomisc.ntdef import NewtypeId\n\n\ndef newtype_other(i: NewtypeId) -> NewtypeId:\n    ...\n",
+    "conddef.py": "import sys\n\nif sys.version_info >= (3, 8):\n    class CondclsThing:\n        pass\n\n\ndef cond_fill() -> int:\n    ...\n",
+    "conduse.py": "from clomisc.conddef import CondclsThing\n\n\ndef condcls_use(c: CondclsThing) -> CondclsThing:\n    ...\n",
+    "privdef.py": "class _PrivclsHidden:\n    pass\n\n\ndef priv_fill() -> int:\n    ...\n",
+    "privuse.py": "from clomisc.privdef import _PrivclsHidden\n\n\ndef privcls_use(h: _PrivclsHidden) -> _PrivclsHidden:\n    ...\n",
     # a nested class used from another module
     "nestdef.py": "class NestedOuter:\n    class NestedInner:\n        pass\n",
     "nestuse.py": "from clomisc.nestdef import NestedOuter\n\n\ndef nested_use(i: NestedOuter.NestedInner) -> NestedOuter:\n    ...\n",
@@ -149,7 +156,7 @@ def run_obs(r, scen_by_id, nc) -> dict:
                     refs.append({"name": x["name"], "pos": x["pos"], "tparam": x["tparam"], "kind": "u3",
                                  "sc": {"t": u["t"], "via": u["via"], "second": u.get("second", {}).get("segs") or [], "own": u["own"] and "ownref" in rel or (u["own"] and "refmod" not in rel)}})
                 else:
-                    shape = next((k for k in ("Rootrx", "Prefixsib", "Nested", "Exccls") if x["name"].startswith(k)), "")
+                    shape = next((k for k in ("Rootrx", "Prefixsib", "Nested", "Exccls", "Newtype", "Condcls", "Privcls") if x["name"].lstrip("_").startswith(k)), "")
                     shape = "rawbuiltin" if x["name"].lower() in ("bytes", "object", "complex") else shape
                     shape = "samesuffix" if x["name"] == "Decimal" and "money" in rel else shape.lower()
                     refs.append({"name": x["name"], "pos": x["pos"], "tparam": x["tparam"],
@@ -158,7 +165,7 @@ def run_obs(r, scen_by_id, nc) -> dict:
         for frm, name, alias in f.imports:
             m = SFX.search(name)
             u = scen_by_id.get(int(m.group(1))) if m else None
-            shape = next((k.lower() for k in ("Rootrx", "Prefixsib", "Nested", "Exccls") if name.startswith(k)), "")
+            shape = next((k.lower() for k in ("Rootrx", "Prefixsib", "Nested", "Exccls", "Newtype", "Condcls", "Privcls") if name.lstrip("_").startswith(k)), "")
             shape = "samesuffix" if name == "Decimal" and "money" in rel else shape
             imports.append({"from": frm, "name": alias or name, "kind": "u3" if u else (shape or "foreign"),
                             "sc": {"t": u["t"], "via": u["via"], "own": False, "second": u.get("second", {}).get("segs") or []} if u else {"t": None_T, "via": "def", "own": False, "second": []}})
